@@ -188,8 +188,13 @@ def tag_structure(n: int, l0: int, l1: int, l2: int, l3: int,
                 enumerate(zip([l0, l1, l2, l3], [none0, none1, none2, none3]))][:n]
         attrs = list(zip(keys[:n], vals))
         data = Val('d', ldata)
-        out = xmlwriter.build_xml_tag(name, attrs, data if has_data else None,
-                                      self_indent=indent)
+        try:
+            out = xmlwriter.build_xml_tag(name, attrs, data if has_data else None,
+                                          self_indent=indent)
+        except (TypeError, AttributeError) as e:
+            # the writer looked inside a value (legal for real strings): the opaque-value
+            # abstraction does not apply; content is the subject of the lemma harnesses
+            return 'INCONCLUSIVE: writer inspects value content directly (%r)' % (e,)
     finally:
         xmlwriter.quoteattr = _REAL_QUOTEATTR
         xmlwriter.escape = _REAL_ESCAPE
